@@ -5,9 +5,9 @@ func init() {
 	serve("C01", "T1", "T2", "T3", "T6", "T8", "T9", "T10", "B1", "B2", "B3", "B3b")
 	serve("C02", "B1", "B1n", "B2", "B3", "B3b", "B4", "B6")
 	serve("C03", "F1", "F2", "T6", "T9", "B4", "B3b", "G6r", "L1@io")
-	serve("C04", "W1", "W2", "T5")
+	serve("C04", "W1", "W2", "W3", "V6", "T5")
 	serve("C05", "V2", "V1", "V4", "V5")
-	serve("C07", "B6", "B6m", "G5", "G6r", "B2", "B3")
+	serve("C07", "B6", "B6m", "G5", "G6", "G6r", "B2", "B3")
 	serve("C08", "G4", "G8", "G12", "R4", "B6", "B6m")
 	serve("C09", "L1", "L2", "P3", "P3c", "L6", "S4", "G7")
 	serve("C10", "P3", "P3w", "P4", "P5", "P7", "L1")
@@ -21,11 +21,11 @@ func init() {
 	serve("C18", "L1", "L2", "L6", "P2", "R4", "G10", "G14")
 	serve("C19", "P3", "P6", "L1", "L6")
 	serve("C20", "G2", "R4", "L2", "L3")
-	serve("C06", "T1", "T2", "T3", "T4", "T5", "B2", "B3")
+	serve("C06", "T1", "T2", "T3", "T4", "T5", "T8", "T10", "B2", "B3", "V1")
 }
 
 func init() {
 	// pseudo-property used only to validate the corpus in one run
-	serve("ALL", "T1", "T2", "T3", "T4", "T5", "T6", "T8", "T9", "B1", "B1n", "B2", "B3", "B3b", "B4", "B6", "B6m", "F1", "F2", "G1", "G2", "G3", "G4", "G5", "G6", "G6r", "G7", "G8", "G9", "G10", "G11", "G12", "G13", "G14", "G1b", "P7", "V5", "T10",
+	serve("ALL", "T1", "T2", "T3", "T4", "T5", "T6", "T8", "T9", "B1", "B1n", "B2", "B3", "B3b", "B4", "B6", "B6m", "F1", "F2", "G1", "G2", "G3", "G4", "G5", "G6", "G6r", "G7", "G8", "G9", "G10", "G11", "G12", "G13", "G14", "G1b", "P7", "V5", "T10", "W3", "V6",
 		"L1", "L2", "L3", "L4", "L5", "L6", "L7", "P1", "P2", "P3", "P3c", "P3w", "P4", "P5", "P6", "R1", "R2", "R3", "R4", "S1", "S2", "S3", "S4", "S5", "S6", "V1", "V2", "V3", "V4", "W1", "W2")
 }
